@@ -26,7 +26,9 @@ def DeadOK (c : Cfg) : Prop :=
   match headStage c.code with
   | some .notify => ∃ t rest, c.trace = (t, Cmd.stop) :: rest
   | some .clear => ∃ t t' rest, c.trace = (t', Cmd.notify) :: (t, Cmd.stop) :: rest
-  | some _ => True
+  | some .join => True
+  | some .stop => True
+  | some .putTerm => Ended c.trace
   | none => Ended c.trace
 
 structure Inv (c : Cfg) : Prop where
@@ -371,6 +373,17 @@ theorem inv_main (st : Static) (hf : Fixed st) (c c' : Cfg) (inv : Inv c) (h : s
         · intro ha; rw [hdead] at ha; cases ha
         · intro ha; rw [hdead] at ha; cases ha
         · intro _; exact DeadOK_of_noLate _ htail (Or.inr ⟨t, t', tr, htr⟩)
+
+/-- a cleanup stage after `join` at the head of the code means that the set-point thread is gone -/
+theorem late_dead (c : Cfg) (inv : Inv c) (s : Stage) (rest : List Instr) (hc : c.code = .cleanup s :: rest)
+    (hs : s ≠ .putTerm) (hj : s ≠ .join) : c.thr.alive = false := by
+  cases ha : c.thr.alive with
+  | false => rfl
+  | true =>
+    by_cases hq : Ev.term ∈ c.thr.queue
+    · obtain ⟨r, hr⟩ := inv.term ha hq; rw [hc] at hr; cases hr; exact absurd rfl hj
+    · have := (inv.live ha hq).2.2; rw [hc] at this
+      cases s <;> simp_all [noLate, isLate]
 
 /-- every iteration of the set-point thread keeps the invariant -/
 theorem inv_thr (st : Static) (c c' : Cfg) (inv : Inv c) (h : stepThr st c = some c') : Inv c' := by
